@@ -231,27 +231,28 @@ Proof.
   (* the tail: a state x with the same votes and valid fields as s, lock backed *)
   assert (Tail : forall (f : cstate -> cstate) bb,
             cs_halted (f s) = false -> cs_votes (f s) = cs_votes s ->
-            cs_vround (f s) = cs_vround s -> cs_vblock (f s) = cs_vblock s ->
+            backed (cs_votes s) (cs_vround (f s)) (cs_vblock (f s)) ->
             backed (cs_votes s) (cs_lround (f s)) (cs_lblock (f s)) ->
             seq (modify f) (seq (sign_add_vote E PRECOMMIT bb) (modify (set_rs round SPrecommit))) s = (s', o) ->
             Backed s').
-  { intros f bb F1 F2 F3 F4 F5 Eq'. rewrite seq_modify in Eq' by exact F1.
+  { intros f bb F1 F2 F3 F5 Eq'. rewrite seq_modify in Eq' by exact F1.
     unfold seq, sign_add_vote, modify in Eq'.
-    destruct (is_validator E); rewrite F1 in Eq'; injection Eq' as <- <-; unfold Backed; cs; rewrite F2, F3, F4; split; assumption. }
+    destruct (is_validator E); rewrite F1 in Eq'; injection Eq' as <- <-; unfold Backed; cs; rewrite F2; split; assumption. }
   destruct (o_maj23 (prevotes (cs_votes s) round)) as [polka|] eqn:Maj.
   2:{ apply (Tail (fun x => x) None); auto.
       unfold seq at 1, modify at 1. rewrite Hh. cbn [app].
       destruct (seq (sign_add_vote E PRECOMMIT None) (modify (set_rs round SPrecommit)) s) as [a bb] eqn:Es. exact Eq. }
   destruct (fst (pol_info (cs_votes s)) <? round); [eapply panic_backed; [exact Eq | split; assumption]|].
   destruct polka as [[hh ph]|].
-  2:{ refine (Tail _ _ _ _ _ _ _ Eq); cbv beta; destruct (cs_lblock s) eqn:El; cs; auto; try apply backed_none; rewrite El; apply backed_none. }
+  2:{ refine (Tail _ _ _ _ _ _ Eq); cbv beta; destruct (cs_lblock s) eqn:El; cs; auto; try apply backed_none; rewrite El; apply backed_none. }
   destruct (hashes_to (cs_lblock s) hh) eqn:HL.
-  { refine (Tail _ _ _ _ _ _ _ Eq); cbv beta; cs; auto. eapply hashes_to_backed; eassumption. }
+  { refine (Tail _ _ _ _ _ _ Eq); cbv beta; cs; auto; [|eapply hashes_to_backed; eassumption].
+    destruct (cs_vround s <? round); [eapply hashes_to_backed; eassumption | exact PV]. }
   destruct (hashes_to (cs_pblock s) hh) eqn:HP.
   { destruct (cs_pblock s) as [pb|] eqn:Ep; [|injection Eq as <- <-; split; assumption].
     destruct (negb (b_valid pb)); [eapply panic_backed; [exact Eq | split; assumption]|].
-    refine (Tail _ _ _ _ _ _ _ Eq); cbv beta; cs; auto. rewrite Ep. eapply hashes_to_backed; eassumption. }
-  refine (Tail _ _ _ _ _ _ _ Eq); cbv beta zeta;
+    refine (Tail _ _ _ _ _ _ Eq); cbv beta; cs; auto. rewrite Ep. eapply hashes_to_backed; eassumption. }
+  refine (Tail _ _ _ _ _ _ Eq); cbv beta zeta;
     destruct (has_header (cs_pparts (set_locked (-1) None None s)) ph); cs; auto; apply backed_none.
 Qed.
 
